@@ -231,7 +231,7 @@ class OutOfFuel(Exception):
 
 
 PASS = ("Borrow", "Deref", "Coerce", "Use", "Scope", "NeverToAny", "ByUse", "RawBorrow", "Binder")
-IDENTITY_CALLS = {"clone", "borrow", "as_ref", "deref", "as_deref", "to_owned", "by_ref", "as_mut", "deref_mut", "borrow_mut", "copied", "cloned", "as_slice", "as_mut_slice", "peekable", "fuse", "as_str", "as_bytes_mut", "as_mut_str", "to_string", "to_vec"}
+IDENTITY_CALLS = {"must_use", "black_box", "clone", "borrow", "as_ref", "deref", "as_deref", "to_owned", "by_ref", "as_mut", "deref_mut", "borrow_mut", "copied", "cloned", "as_slice", "as_mut_slice", "peekable", "fuse", "as_str", "as_bytes_mut", "as_mut_str", "to_string", "to_vec"}
 ITER_CALLS = {"iter", "into_iter", "iter_mut", "drain"}
 
 
@@ -396,6 +396,8 @@ class PEval:
             m = re.fullmatch(r"Byte\((\d+)\)", v)
             if m:
                 return int(m.group(1))
+            if v.startswith("ByteStr(["):
+                return [int(t) for t in re.findall(r"\d+", v.split("]")[0])]
             m = re.fullmatch(r"(-?\d+)(_?[iu](\d+|size))?", v)
             if m:
                 return int(m.group(1))
@@ -838,6 +840,39 @@ class PEval:
                     raw[0].variant, raw[0].fields = "None", {}
                     return old
                 return self.unknown("mem::%s of this value" % fname)
+        # ---- format!(..) ------------------------------------------------------------------------------
+        if "fmt::rt::Argument" in path and fname in ("new_display",) and len(args) == 1:
+            return Struct("#FmtArg", {"v": a0})
+        if "fmt::Arguments" in path and fname == "new" and len(args) == 2 and isinstance(a0, list):
+            return Struct("#FmtArgs", {"template": a0, "args": args[1]})
+        if "fmt::Arguments" in path and fname in ("from_str", "new_const") and len(args) == 1:
+            if isinstance(a0, str):
+                return Struct("#FmtArgs", {"text": a0})
+            if isinstance(a0, list) and len(a0) == 1 and isinstance(a0[0], str):
+                return Struct("#FmtArgs", {"text": a0[0]})
+        if fname == "format" and path.startswith("alloc::fmt::") and isinstance(a0, Struct) and a0.adt == "#FmtArgs":
+            if "text" in a0.fields:
+                return a0.fields["text"]
+            t, fa_ = a0.fields["template"], a0.fields["args"]
+            fa_ = fa_.rest() if isinstance(fa_, Iter) else fa_
+            out, i, k = [], 0, 0
+            while i < len(t):
+                b = t[i]
+                if b == 0:
+                    break
+                if b < 128:
+                    out.append(bytes(t[i + 1:i + 1 + b]).decode("utf-8", "replace"))
+                    i += 1 + b
+                elif b == 192 and isinstance(fa_, list) and k < len(fa_) and isinstance(fa_[k], Struct):
+                    v = deref(fa_[k].fields.get("v"))
+                    if isinstance(v, bool) or not isinstance(v, (str, int)):
+                        return self.unknown("format! of a value that is not text")
+                    out.append(str(v))
+                    k += 1
+                    i += 1
+                else:
+                    return self.unknown("format! placeholder with options")
+            return "".join(out)
         if fname in ("call", "call_mut", "call_once") and "ops::function" in path and len(args) == 2:
             tup = args[1]
             return self.apply(a0, list(tup) if isinstance(tup, tuple) and tup is not UNIT else [], depth)
@@ -851,6 +886,18 @@ class PEval:
                 return args[1]
             if fname in ("box_assume_init_into_vec_unsafe", "into_vec", "box_new", "assume_init"):
                 return a0
+        if fname == "default" and not args and path.startswith("<") and " as core::default::Default>" in path:
+            t = path[1:].split(" as ")[0]
+            if t == "bool":
+                return False
+            if re.fullmatch(r"[iu](8|16|32|64|128|size)", t):
+                return 0
+            if t in ("alloc::string::String", "&str", "str"):
+                return ""
+            if t.startswith("alloc::vec::Vec<"):
+                return []
+            if t.startswith("core::option::Option<"):
+                return NONE
         if fname == "unwrap_or_default" and isinstance(a0, Enum) and a0.adt == OPTION and a0.variant == "None" and node is not None:
             t = self.lib.ty_str(node["t"]) if "t" in node else ""
             if t == "bool":
